@@ -963,7 +963,17 @@ impl<'a> Sk<'a> {
                         // tuple pattern: kept components from the value, or arbitrary
                         let mut names = Vec::new();
                         collect_pat_idents(p, &mut names);
-                        let any_kept = names.iter().any(|n| self.kept.contains_key(n) || self.tracked.contains_key(n));
+                        let mut any_kept = names.iter().any(|n| self.kept.contains_key(n) || self.tracked.contains_key(n));
+                        // S11 for tuple patterns: the components of an event result are kept under whatever names
+                        if let Some(vt) = &v {
+                            if !any_kept && vt.contains('(') && !vt.starts_with('(') && matches!(p, syn::Pat::Tuple(_)) {
+                                for n in &names {
+                                    self.kept.insert(n.clone(), "_".into());
+                                }
+                                any_kept = true;
+                                self.note("S11", l.span(), "tuple pattern bound to an event result is kept");
+                            }
+                        }
                         if let (Some(v), true) = (&v, any_kept) {
                             out.push(format!("let {} = {v}; {}", self.pat_text(p), self.srcnote(l.span())));
                         } else {
@@ -1464,6 +1474,75 @@ pub fn skeleton_fn(ctx: &mut Ctx, blk: &Block) -> Result<(String, Value), String
         used_hooks: vec![],
         let_alias: HashMap::new(),
     };
+    // S12: `@callee.k` in a directive or in the contract stands for the root identifier of the k-th argument of the
+    // (first) call of `callee` in the function - names follow the data flow, not what a local happens to be called
+    let blk_resolved: Block = {
+        struct Calls(HashMap<String, Vec<Option<String>>>);
+        impl Calls {
+            fn args(&mut self, name: String, args: &syn::punctuated::Punctuated<syn::Expr, syn::token::Comma>) {
+                if self.0.contains_key(&name) {
+                    return;
+                }
+                let v = args.iter().map(Sk::root_ident).collect();
+                self.0.insert(name, v);
+            }
+        }
+        impl<'ast> syn::visit::Visit<'ast> for Calls {
+            fn visit_expr_method_call(&mut self, m: &'ast syn::ExprMethodCall) {
+                self.args(m.method.to_string(), &m.args);
+                syn::visit::visit_expr_method_call(self, m);
+            }
+            fn visit_expr_call(&mut self, c: &'ast syn::ExprCall) {
+                if let syn::Expr::Path(p) = &*c.func {
+                    if let Some(l) = p.path.segments.last() {
+                        self.args(l.ident.to_string(), &c.args);
+                    }
+                }
+                syn::visit::visit_expr_call(self, c);
+            }
+        }
+        let mut calls = Calls(HashMap::new());
+        syn::visit::Visit::visit_block(&mut calls, f.block);
+        let resolve = |text: &str| -> Result<String, String> {
+            let mut out = String::new();
+            let mut rest = text;
+            while let Some(i) = rest.find('@') {
+                out.push_str(&rest[..i]);
+                let tail = &rest[i + 1..];
+                let end = tail.find(|c: char| !(c.is_ascii_alphanumeric() || c == '_' || c == '.')).unwrap_or(tail.len());
+                let tok = &tail[..end];
+                match tok.split_once('.') {
+                    Some((callee, k)) if !callee.is_empty() && k.chars().all(|c| c.is_ascii_digit()) && !k.is_empty() => {
+                        let k: usize = k.parse().unwrap();
+                        let id = calls.0.get(callee).and_then(|v| v.get(k)).cloned().flatten();
+                        match id {
+                            Some(id) => out.push_str(&id),
+                            None => return Err(format!("lost anchor: `@{tok}` - no call of `{callee}` with an identifier as argument {k} in {path}")),
+                        }
+                        rest = &tail[end..];
+                    }
+                    _ => {
+                        out.push('@');
+                        rest = tail;
+                    }
+                }
+            }
+            out.push_str(rest);
+            Ok(out)
+        };
+        let mut b = blk.clone();
+        for s in b.subs.iter_mut() {
+            s.arg = resolve(&s.arg)?;
+            for l in s.lines.iter_mut() {
+                *l = resolve(l)?;
+            }
+        }
+        for l in b.spec.iter_mut() {
+            *l = resolve(l)?;
+        }
+        b
+    };
+    let blk = &blk_resolved;
     let mut params_text = String::new();
     let mut declared_hooks: Vec<String> = Vec::new();
     for s in &blk.subs {
